@@ -4,8 +4,8 @@
    What is proved here is about the models (LiteralModel.v: grammar, denotation, the intended and the coded
    ratFromString, correctly rounded doubles, the rational printer; LPFileModel.v: the writers' normalisations).  The
    models are tied to /repo by checks/C12.py on every run (bounded-exhaustive literals, random round trips). *)
-From Coq Require Import ZArith QArith Qabs Bool List Ascii.
-From SV Require Import Dbl LiteralModel Literal_Proofs Rounding_Proofs LPFileModel LPFile_Proofs.
+From Coq Require Import ZArith QArith Qabs Bool List Ascii Lia.
+From SV Require Import Dbl LiteralModel Literal_Proofs Rounding_Proofs LPFileModel LPFile_Proofs DualModel Dual_Proofs.
 Import ListNotations.
 Local Open Scope Q_scope.
 
@@ -195,3 +195,33 @@ Qed.
 
 Example C12_ex_drop : used_mask ex_lp = [true; true; false] /\ length (l_cols (lpf_image false ex_lp)) = 2%nat.
 Proof. split; vm_compute; reflexivity. Qed.
+
+(* ------------------------------------------------------------------ the dual writer *)
+
+(* The LP that writeDualFileReal writes is built by buildDualProblem, modelled as [dual_of] (DualModel.v) and compared with the
+   code exactly on every run.  It is a dual in the sense that matters: for every LP (any mix of free / one-sided / boxed / fixed
+   columns, with zero or non-zero bounds; free, one-sided, equality and ranged rows; min and max) every feasible point of the
+   dual LP bounds every feasible point of the primal LP ... *)
+Theorem C12_dual_writer_weak_duality :
+  forall p x z, feasible p x -> feasible (dual_of p) z ->
+    sle (l_sense p) (objective (dual_of p) z) (objective p x - l_offset p).
+Proof. exact dual_weak_duality. Qed.
+Print Assumptions C12_dual_writer_weak_duality.
+
+(* ... so that equal values - what every run observes on the solved pair - certify that both points are optimal. *)
+Theorem C12_dual_writer_equal_values_optimal :
+  forall p x z, feasible p x -> feasible (dual_of p) z -> objective (dual_of p) z == objective p x - l_offset p ->
+    optimal p x /\ optimal (dual_of p) z.
+Proof. exact dual_equal_values_optimal. Qed.
+Print Assumptions C12_dual_writer_equal_values_optimal.
+
+(* non-vacuity: min 2x + 3y, x + y >= 2, x in [1, 4], y >= 0: dual max 2u + v - 4w with u + v + w <= 2 ... ; values agree at 4 *)
+Definition ex_dp : lp := mkLP Min 0 [mkCol 2 (Some 1) (Some 4); mkCol 3 (Some 0) None] [mkRow (Some 2) [1; 1] None].
+Example C12_ex_dual :
+  length (l_cols (dual_of ex_dp)) = 3%nat /\ length (l_rows (dual_of ex_dp)) = 2%nat /\ l_sense (dual_of ex_dp) = Max /\
+  objective (dual_of ex_dp) [0; 0; 2] == 4 /\ objective ex_dp [2; 0] == 4.
+Proof. repeat split; vm_compute; reflexivity. Qed.
+Example C12_ex_dual_feasible : feasible ex_dp [2; 0] /\ feasible (dual_of ex_dp) [0; 0; 2].
+Proof.
+  unfold feasible. vm_compute. repeat split; repeat constructor; cbn; unfold Qle; cbn; try lia; try discriminate.
+Qed.
